@@ -1,27 +1,36 @@
 package main
 
-// Stream `cla`: index operations plus membership queries. The queries go through the REAL
-// xds.EdsGenerator.Generate of a pilot/test/xds FakeDiscoveryServer (real PushContext, SidecarScope,
-// DestinationRules, mesh config, real XdsCache in front of endpoints.NewCDSEndpointBuilder(...).
-// BuildClusterLoadAssignment(index)), on the server's own EndpointIndex, which the `upd`/`delsvc`/...
-// lines fill through the real index API (and which invalidates that cache).
+// Stream `cla`: what a proxy is SERVED.  Index operations go through the REAL entry points of the
+// DiscoveryServer of a pilot/test/xds FakeDiscoveryServer (`EDSUpdate`, `SvcUpdate`, `RemoveShard`,
+// `PruneShard`); the PushRequest that `EDSUpdate` hands to `ConfigUpdate` is taken from the server's push
+// channel and merged per proxy (`PushRequest.CopyMerge`).  A `push` line runs
+// the REAL xds.EdsGenerator (`Generate` or `GenerateDeltas`) for one proxy with exactly that merged,
+// NON-forced request over all the clusters the proxy watches - so the push-type -> ConfigsUpdated
+// mapping, the partial-push selection (edsUpdatedServices / affectedService), the XdsCache and
+// `BuildClusterLoadAssignment` (incl. `EndpointsByNetworkFilter` in the multi-network world) decide
+// what the proxy holds afterwards.  The line prints the proxy's assignment for every watched cluster.
 //
-//	cla <svc> <ns> <port> <subset> <proxy> <unh>  <portName> <subsetLabels> <view> <proxyCluster>
-//	    <clusterLocal> <nodeLocal> <proxyNode> <unhealthyOk> <persistent>
+//	case <n> cla <world> <unh>
+//	upd|delsvc|delshard|prune ...
+//	push <proxy> <mode> <view> <proxyCluster> <proxyNode> <proxyNetwork> <gateways> <query>...
+//	     query = svc|ns|port|subset|portName|subsetLabels|clusterLocal|nodeLocal|unhealthyOk|persistent
 //
-// The first six tokens name real objects; the remaining ones are what those objects amount to for
-// the Lean model (written by the generator from its description of the world below).
+// In a push line the tokens after <mode> are what the named real objects amount to for the Lean
+// model (written by the generator from its description of the worlds below).
 
 import (
 	"fmt"
 	"math"
 	"os"
+	"reflect"
 	"sort"
 	"strconv"
 	"strings"
 	"time"
+	"unsafe"
 
 	endpoint "github.com/envoyproxy/go-control-plane/envoy/config/endpoint/v3"
+	"google.golang.org/protobuf/types/known/wrapperspb"
 
 	meshconfig "istio.io/api/mesh/v1alpha1"
 	networking "istio.io/api/networking/v1alpha3"
@@ -38,6 +47,8 @@ import (
 	"istio.io/istio/pkg/config/mesh"
 	"istio.io/istio/pkg/config/protocol"
 	"istio.io/istio/pkg/config/schema/gvk"
+	"istio.io/istio/pkg/config/schema/kind"
+	"istio.io/istio/pkg/kube/krt"
 	"istio.io/istio/pkg/network"
 	"istio.io/istio/pkg/util/sets"
 	"verifharness/internal/quiet"
@@ -63,7 +74,7 @@ func (f *failer) done() {
 	f.cleanups = nil
 }
 
-// ---------------------------------------------------------------- the world
+// ---------------------------------------------------------------- the worlds
 
 const claNs = "ns1"
 
@@ -72,6 +83,7 @@ type svcDesc struct {
 	clusterLocal bool
 	nodeLocal    bool
 	persistent   bool
+	minHealth    bool // DestinationRule outlierDetection.minHealthPercent > 0: unhealthy endpoints never served
 }
 
 var claSvcs = []svcDesc{
@@ -79,6 +91,16 @@ var claSvcs = []svcDesc{
 	{name: "p", persistent: true},
 	{name: "l", clusterLocal: true},
 	{name: "n", nodeLocal: true},
+	{name: "m", minHealth: true},
+}
+
+func svcByHost(h string) svcDesc {
+	for _, d := range claSvcs {
+		if svcHost(d.name) == h {
+			return d
+		}
+	}
+	return svcDesc{}
 }
 
 func svcHost(name string) string { return name + ".ns1.svc.cluster.local" }
@@ -95,6 +117,16 @@ var claProxies = []proxyDesc{
 	{name: "p1", cluster: "c1", network: "", node: "node1"},
 	{name: "p2", cluster: "c2", network: "n1", node: "node2", view: []string{"n1"}},
 	{name: "p3", cluster: "", network: "n2", node: "", view: []string{"n2"}},
+	{name: "p4", cluster: "c1", network: "n1", node: "node1"},
+}
+
+func proxyByName(n string) proxyDesc {
+	for _, p := range claProxies {
+		if p.name == n {
+			return p
+		}
+	}
+	return proxyDesc{}
 }
 
 var claSubsets = map[string]map[string]string{
@@ -106,14 +138,52 @@ var claSubsets = map[string]map[string]string{
 
 var claPorts = map[int]string{80: "http", 81: "grpc"}
 
+// gateways of world 1 (multi-network). n1/c1: one gateway plus an ambient-only one (no mTLS port);
+// n2/c2: two gateways (weights are split, lcm = 2); n3/c3: IPv6 only (unreachable for the IPv4 proxies).
+var claGateways = []model.NetworkGateway{
+	{Network: "n1", Cluster: "c1", Addr: "1.1.1.1", Port: 15443},
+	{Network: "n1", Cluster: "c1", Addr: "1.1.1.9", Port: 0, HBONEPort: 15008},
+	{Network: "n2", Cluster: "c2", Addr: "2.2.2.2", Port: 15443},
+	{Network: "n2", Cluster: "c2", Addr: "2.2.2.3", Port: 15443},
+	{Network: "n3", Cluster: "c3", Addr: "fd00::33", Port: 15443},
+}
+
+func gatewaysOf(world int) []model.NetworkGateway {
+	if world == 1 {
+		return claGateways
+	}
+	return nil
+}
+
+func encGateways(gws []model.NetworkGateway) string {
+	if len(gws) == 0 {
+		return "-"
+	}
+	parts := make([]string, len(gws))
+	for i, g := range gws {
+		parts[i] = strings.Join([]string{wire.Enc(string(g.Network)), wire.Enc(string(g.Cluster)), wire.Enc(g.Addr), strconv.Itoa(int(g.Port))}, "|")
+	}
+	return strings.Join(parts, ";")
+}
+
+type conn struct {
+	watched []claQuery
+	served  map[string]*endpoint.ClusterLoadAssignment
+	pending *model.PushRequest
+	inited  bool
+}
+
 type claWorld struct {
+	id      int
 	f       *failer
 	s       *txds.FakeDiscoveryServer
 	proxies map[string]*model.Proxy
-	lastUnh bool
+	conns   map[string]*conn
+	ds      *pxds.DiscoveryServer // not started: see record
+	pushCh  reflect.Value
 }
 
-func newClaWorld() *claWorld {
+func newClaWorld(id int) *claWorld {
 	f := &failer{}
 	m := mesh.DefaultMeshConfig()
 	m.ServiceSettings = []*meshconfig.MeshConfig_ServiceSettings{{
@@ -141,14 +211,28 @@ func newClaWorld() *claWorld {
 		for _, n := range []string{"v1", "v2", "app", "all"} {
 			subsets = append(subsets, &networking.Subset{Name: n, Labels: claSubsets[n]})
 		}
+		dr := &networking.DestinationRule{Host: svcHost(d.name), Subsets: subsets}
+		if d.minHealth {
+			// outlier detection with a minimum health percentage: unhealthy endpoints are not served even when
+			// the process default says so; locality load balancing off so that failover priorities stay out
+			dr.TrafficPolicy = &networking.TrafficPolicy{
+				OutlierDetection: &networking.OutlierDetection{MinHealthPercent: 50},
+				LoadBalancer: &networking.LoadBalancerSettings{
+					LocalityLbSetting: &networking.LocalityLoadBalancerSetting{Enabled: wrapperspb.Bool(false)},
+				},
+			}
+		}
 		cfgs = append(cfgs, config.Config{
 			Meta: config.Meta{GroupVersionKind: gvk.DestinationRule, Name: "dr-" + d.name, Namespace: claNs},
-			Spec: &networking.DestinationRule{Host: svcHost(d.name), Subsets: subsets},
+			Spec: dr,
 		})
 	}
-	s := txds.NewFakeDiscoveryServer(f, txds.FakeOptions{Services: svcs, Configs: cfgs, MeshConfig: m})
+	s := txds.NewFakeDiscoveryServer(f, txds.FakeOptions{Services: svcs, Configs: cfgs, MeshConfig: m, Gateways: gatewaysOf(id)})
 	quiet.Silence()
-	w := &claWorld{f: f, s: s, proxies: map[string]*model.Proxy{}}
+	w := &claWorld{id: id, f: f, s: s, proxies: map[string]*model.Proxy{}, conns: map[string]*conn{}}
+	w.ds = pxds.NewDiscoveryServer(s.Discovery.Env, map[string]string{}, krt.GlobalDebugHandler)
+	fld := reflect.ValueOf(w.ds).Elem().FieldByName("pushChannel")
+	w.pushCh = reflect.NewAt(fld.Type(), unsafe.Pointer(fld.UnsafeAddr())).Elem()
 	for i, d := range claProxies {
 		w.proxies[d.name] = s.SetupProxy(&model.Proxy{
 			Type:            model.SidecarProxy,
@@ -164,10 +248,11 @@ func newClaWorld() *claWorld {
 	return w
 }
 
+func (w *claWorld) env() *model.Environment   { return w.s.Discovery.Env }
 func (w *claWorld) index() *model.EndpointIndex { return w.s.Discovery.Env.EndpointIndex }
 
-// reset empties the server's index for the services of this world.
-func (w *claWorld) reset() {
+// reset: a case starts from an empty index, an empty cache and proxies that have not connected.
+func (w *claWorld) reset(unh bool) {
 	idx := w.index()
 	for svc, byNs := range idx.Shardz() {
 		for ns, es := range byNs {
@@ -177,6 +262,161 @@ func (w *claWorld) reset() {
 			idx.DeleteServiceShard(model.ShardKey{}, svc, ns, false)
 		}
 	}
+	// whether unhealthy endpoints are served is a process-wide default (PILOT_AUTO_SEND_UNHEALTHY_ENDPOINTS)
+	features.DefaultSendUnhealthyEndpoints.Store(unh)
+	w.env().Cache.ClearAll()
+	w.conns = map[string]*conn{}
+	w.record(func() {})
+}
+
+// record runs f and returns the (merged) PushRequests that ConfigUpdate queued meanwhile.  `ds` is a
+// second, never started DiscoveryServer on the fake server's Environment: nothing consumes its push
+// channel, so what EDSUpdate hands to ConfigUpdate stays there until it is taken out here.  The
+// channel is an unexported field; it is read through reflect/unsafe so that the harness needs no
+// hook in pilot/pkg/xds (and therefore also builds against older trees).
+func (w *claWorld) record(f func()) *model.PushRequest {
+	f()
+	var out *model.PushRequest
+	for {
+		v, ok := w.pushCh.TryRecv()
+		if !ok {
+			return out
+		}
+		req := v.Interface().(*model.PushRequest)
+		if out == nil {
+			out = req
+		} else {
+			out = out.CopyMerge(req)
+		}
+	}
+}
+
+func (w *claWorld) enqueue(req *model.PushRequest) {
+	if req == nil {
+		return
+	}
+	for _, c := range w.conns {
+		if c.inited {
+			if c.pending == nil {
+				c.pending = req
+			} else {
+				c.pending = c.pending.CopyMerge(req)
+			}
+		}
+	}
+}
+
+// applyOp runs one index operation through the DiscoveryServer and returns the push token.
+func (w *claWorld) applyOp(o op) string {
+	ds := w.ds
+	switch o.kind {
+	case "upd":
+		req := w.record(func() { ds.EDSUpdate(shardKey(o.sk), o.k.a, o.k.b, o.eps) })
+		w.enqueue(req)
+		switch {
+		case req == nil:
+			return "NoPush"
+		case model.HasConfigsOfKind(req.ConfigsUpdated, kind.ServiceEntry):
+			return "Full"
+		case model.HasConfigsOfKind(req.ConfigsUpdated, kind.Endpoints):
+			return "Incremental"
+		}
+		return "Push?"
+	case "delsvc":
+		if o.preserve {
+			w.index().DeleteServiceShard(shardKey(o.sk), o.k.a, o.k.b, true)
+		} else {
+			ds.SvcUpdate(shardKey(o.sk), o.k.a, o.k.b, model.EventDelete)
+		}
+		// the registry's service handler follows the delete with a service push
+		w.enqueue(&model.PushRequest{
+			ConfigsUpdated: sets.New(model.ConfigKey{Kind: kind.ServiceEntry, Name: o.k.a, Namespace: o.k.b}),
+			Reason:         model.NewReasonStats(model.ServiceUpdate),
+		})
+	case "delshard":
+		ds.RemoveShard(shardKey(o.sk))
+		w.enqueue(&model.PushRequest{Forced: true, Reason: model.NewReasonStats(model.ClusterUpdate)})
+	case "prune":
+		ds.PruneShard(shardKey(o.sk), keepMap(o.keep))
+		w.enqueue(&model.PushRequest{Forced: true, Reason: model.NewReasonStats(model.ClusterUpdate)})
+	}
+	return "-"
+}
+
+type claQuery struct {
+	svc, ns string
+	port    int
+	subset  string
+}
+
+func (q claQuery) cluster() string {
+	return model.BuildSubsetKey(model.TrafficDirectionOutbound, q.subset, host.Name(q.svc), q.port)
+}
+
+func parseQuery(t string) (claQuery, bool) {
+	f := strings.Split(t, "|")
+	if len(f) != 10 {
+		return claQuery{}, false
+	}
+	return claQuery{svc: wire.Dec(f[0]), ns: wire.Dec(f[1]), port: atoi(f[2]), subset: wire.Dec(f[3])}, true
+}
+
+func (w *claWorld) generator() *pxds.EdsGenerator {
+	// wired as in pilot/pkg/bootstrap (InitGenerators): generator cache == the cache the index invalidates.
+	// (The fake server itself pairs its generator with the cache of a different Environment.)
+	return &pxds.EdsGenerator{Cache: w.env().Cache, EndpointIndex: w.env().EndpointIndex}
+}
+
+// push runs one EDS push for the proxy and returns the assignments it holds afterwards.
+func (w *claWorld) push(name, mode string, qs []claQuery) []*endpoint.ClusterLoadAssignment {
+	p := w.proxies[name]
+	c := w.conns[name]
+	if c == nil {
+		c = &conn{served: map[string]*endpoint.ClusterLoadAssignment{}}
+		w.conns[name] = c
+	}
+	c.watched = qs
+	names := sets.New[string]()
+	for _, q := range qs {
+		names.Insert(q.cluster())
+	}
+	var req *model.PushRequest
+	if !c.inited {
+		// a new connection: the first EDS request is answered in full
+		req = &model.PushRequest{Forced: true, Reason: model.NewReasonStats(model.ProxyRequest)}
+		c.inited = true
+	} else {
+		req = c.pending
+	}
+	c.pending = nil
+	if req != nil {
+		r := *req
+		r.Push = w.s.PushContext()
+		r.Start = time.Now()
+		wr := &model.WatchedResource{TypeUrl: v3.EndpointType, ResourceNames: names}
+		var res model.Resources
+		if mode == "delta" {
+			res, _, _, _, _ = w.generator().GenerateDeltas(p, &r, wr)
+		} else {
+			res, _, _ = w.generator().Generate(p, wr, &r)
+		}
+		for _, x := range res {
+			cla := &endpoint.ClusterLoadAssignment{}
+			if err := x.GetResource().UnmarshalTo(cla); err == nil {
+				c.served[cla.ClusterName] = cla
+			}
+		}
+	}
+	out := make([]*endpoint.ClusterLoadAssignment, len(qs))
+	for i, q := range qs {
+		out[i] = c.served[q.cluster()]
+	}
+	return out
+}
+
+func (w *claWorld) direct(name string, q claQuery) *endpoint.ClusterLoadAssignment {
+	b := endpoints.NewEndpointBuilder(q.cluster(), w.proxies[name], w.s.PushContext())
+	return b.BuildClusterLoadAssignment(w.index())
 }
 
 func showCLA(cla *endpoint.ClusterLoadAssignment) string {
@@ -187,81 +427,51 @@ func showCLA(cla *endpoint.ClusterLoadAssignment) string {
 	for _, g := range cla.Endpoints {
 		var eps []string
 		for _, le := range g.LbEndpoints {
-			a := le.GetEndpoint().GetAddress()
-			addr := ""
-			if sa := a.GetSocketAddress(); sa != nil {
-				addr = wire.Enc(sa.GetAddress()) + ":" + strconv.Itoa(int(sa.GetPortValue()))
-			} else if p := a.GetPipe(); p != nil {
-				addr = "pipe:" + wire.Enc(p.GetPath())
-			} else {
-				addr = "other:" + wire.Enc(a.String())
-			}
-			eps = append(eps, fmt.Sprintf("%s/h%d/w%d", addr, int(le.HealthStatus), le.GetLoadBalancingWeight().GetValue()))
+			eps = append(eps, showLbEp(le))
 		}
+		// the order inside a locality carries no meaning (a report that only reorders endpoints is NoPush)
+		sort.Strings(eps)
 		groups = append(groups, fmt.Sprintf("%s{w=%d;p=%d;%s}", wire.Enc(util.LocalityToString(g.Locality)),
 			g.GetLoadBalancingWeight().GetValue(), g.Priority, strings.Join(eps, ",")))
 	}
 	return "cla " + strings.Join(groups, " ")
 }
 
-type claQuery struct {
-	svc, ns string
-	port    int
-	subset  string
-	proxy   string
-	unh     bool
+func showLbEp(le *endpoint.LbEndpoint) string {
+	a := le.GetEndpoint().GetAddress()
+	addr := ""
+	if sa := a.GetSocketAddress(); sa != nil {
+		addr = wire.Enc(sa.GetAddress()) + ":" + strconv.Itoa(int(sa.GetPortValue()))
+	} else if p := a.GetPipe(); p != nil {
+		addr = "pipe:" + wire.Enc(p.GetPath())
+	} else {
+		addr = "other:" + wire.Enc(a.String())
+	}
+	return fmt.Sprintf("%s/h%d/w%d", addr, int(le.HealthStatus), le.GetLoadBalancingWeight().GetValue())
 }
 
-func parseQuery(f []string) (claQuery, bool) {
-	if len(f) != 16 {
-		return claQuery{}, false
-	}
-	return claQuery{svc: wire.Dec(f[1]), ns: wire.Dec(f[2]), port: atoi(f[3]), subset: wire.Dec(f[4]), proxy: f[5], unh: f[6] == "1"}, true
-}
-
-// query returns what the proxy is SERVED: the resource produced by the real EdsGenerator (with the
-// server's real XdsCache in front of the builder). `direct`, if not nil, receives the assignment
-// built directly from the current index (no cache) for the oracle's served-is-current clause.
-func (w *claWorld) query(q claQuery, direct **endpoint.ClusterLoadAssignment) *endpoint.ClusterLoadAssignment {
-	p := w.proxies[q.proxy]
-	if p == nil {
-		return nil
-	}
-	if q.unh != w.lastUnh {
-		// the flag is a process-wide environment setting that the cache key does not (need to) contain:
-		// changing it stands for a restart of istiod
-		w.s.Discovery.Env.Cache.ClearAll()
-		w.lastUnh = q.unh
-	}
-	// whether unhealthy endpoints are served is a process-wide default (PILOT_AUTO_SEND_UNHEALTHY_ENDPOINTS,
-	// on by default) unless a DestinationRule sets outlierDetection.minHealthPercent; the query picks it
-	prev := features.DefaultSendUnhealthyEndpoints.Load()
-	features.DefaultSendUnhealthyEndpoints.Store(q.unh)
-	defer features.DefaultSendUnhealthyEndpoints.Store(prev)
-	name := model.BuildSubsetKey(model.TrafficDirectionOutbound, q.subset, host.Name(q.svc), q.port)
-	if direct != nil {
-		b := endpoints.NewEndpointBuilder(name, p, w.s.PushContext())
-		*direct = b.BuildClusterLoadAssignment(w.index())
-	}
-	// wired as in pilot/pkg/bootstrap (InitGenerators): generator cache == the cache the index invalidates.
-	// (The fake server itself pairs its generator with the cache of a different Environment.)
-	env := w.s.Discovery.Env
-	gen := &pxds.EdsGenerator{Cache: env.Cache, EndpointIndex: env.EndpointIndex}
-	res, _, err := gen.Generate(p, &model.WatchedResource{TypeUrl: v3.EndpointType, ResourceNames: sets.New(name)},
-		&model.PushRequest{Forced: true, Push: w.s.PushContext(), Start: time.Now()})
-	if err != nil || len(res) != 1 {
-		return nil
-	}
-	cla := &endpoint.ClusterLoadAssignment{}
-	if err := res[0].GetResource().UnmarshalTo(cla); err != nil {
-		return nil
-	}
-	return cla
-}
+// ---------------------------------------------------------------- exec
 
 type claSUT struct {
-	w *claWorld
-	s *sut // index ops run on the world's index, with a throw-away recorder for the cache column
+	worlds map[int]*claWorld
+	w      *claWorld
+}
+
+func (c *claSUT) world(id int) *claWorld {
+	if c.worlds == nil {
+		c.worlds = map[int]*claWorld{}
+	}
+	if c.worlds[id] == nil {
+		c.worlds[id] = newClaWorld(id)
+	}
+	return c.worlds[id]
+}
+
+func (c *claSUT) done() {
+	for _, w := range c.worlds {
+		w.f.done()
+	}
+	features.DefaultSendUnhealthyEndpoints.Store(true)
 }
 
 func (c *claSUT) apply(f []string) (out string) {
@@ -271,47 +481,50 @@ func (c *claSUT) apply(f []string) (out string) {
 		}
 	}()
 	if f[0] == "case" {
-		c.w.reset()
+		id, unh := 0, false
+		if len(f) >= 5 {
+			id, unh = atoi(f[3]), f[4] == "1"
+		}
+		c.w = c.world(id)
+		c.w.reset(unh)
 		return "ok"
 	}
-	if f[0] == "cla" {
-		q, ok := parseQuery(f)
-		if !ok {
+	if c.w == nil {
+		c.w = c.world(0)
+		c.w.reset(false)
+	}
+	if f[0] == "push" {
+		if len(f) < 9 || c.w.proxies[f[1]] == nil {
 			return "bad-op"
 		}
-		cla := c.w.query(q, nil)
-		if cla == nil {
-			return "bad-op"
+		var qs []claQuery
+		for _, t := range f[8:] {
+			q, ok := parseQuery(t)
+			if !ok {
+				return "bad-op"
+			}
+			qs = append(qs, q)
 		}
-		return showCLA(cla)
+		clas := c.w.push(f[1], f[2], qs)
+		parts := make([]string, len(clas))
+		for i, cla := range clas {
+			parts[i] = showCLA(cla)
+		}
+		return "served " + strings.Join(parts, " || ")
 	}
 	o, ok := parseOp(f)
 	if !ok {
 		return "bad-op"
 	}
-	idx := c.w.index()
-	var p string
-	switch o.kind {
-	case "upd":
-		p = pushTok(idx.UpdateServiceEndpoints(shardKey(o.sk), o.k.a, o.k.b, o.eps, true))
-	case "delsvc":
-		idx.DeleteServiceShard(shardKey(o.sk), o.k.a, o.k.b, o.preserve)
-		p = "-"
-	case "delshard":
-		idx.DeleteShard(shardKey(o.sk))
-		p = "-"
-	case "prune":
-		idx.PruneShard(shardKey(o.sk), keepMap(o.keep))
-		p = "-"
-	}
-	return p + " | " + showIndex(idx)
+	p := c.w.applyOp(o)
+	return p + " | " + showIndex(c.w.index())
 }
 
 func execCla(in, outp string) {
 	out := wire.Create(outp)
 	defer out.Close()
-	c := &claSUT{w: newClaWorld()}
-	defer c.w.f.done()
+	c := &claSUT{}
+	defer c.done()
 	for _, f := range wire.ReadLines(in) {
 		out.Line(c.apply(f))
 		out.Flush()
@@ -320,7 +533,7 @@ func execCla(in, outp string) {
 
 // ---------------------------------------------------------------- generator
 
-func genClaEp(r *wire.Rng) *model.IstioEndpoint {
+func genClaEp(r *wire.Rng, world int) *model.IstioEndpoint {
 	e := genEp(r)
 	e.Namespace = claNs
 	e.ServicePortName = wire.Pick(r, []string{"http", "http", "http", "http", "http", "grpc"})
@@ -330,7 +543,14 @@ func genClaEp(r *wire.Rng) *model.IstioEndpoint {
 	e.Locality.ClusterID = cluster.ID(wire.Pick(r, []string{"c1", "c1", "c1", "c2", ""}))
 	e.Network = network.ID(wire.Pick(r, []string{"", "", "", "n1", "n2"}))
 	e.NodeName = wire.Pick(r, []string{"node1", "node1", "node2", ""})
-	if len(e.Addresses) == 0 && !r.Chance(1, 4) {
+	if world == 1 {
+		e.Locality.ClusterID = cluster.ID(wire.Pick(r, []string{"c1", "c1", "c2", "c2", "c3", ""}))
+		e.Network = network.ID(wire.Pick(r, []string{"", "n1", "n1", "n2", "n2", "n3", "n4"}))
+		e.TLSMode = wire.Pick(r, []string{"istio", "istio", "istio", "disabled", ""})
+		e.Locality.Label = wire.Pick(r, []string{"r1/z1/s1", "r1/z1/s1", "r1/z2/s1", "r2/z1/s1"})
+	}
+	if len(e.Addresses) == 0 {
+		// no registry produces an endpoint without any address (the builder panics on it: corpus case cla.nil-address)
 		e.Addresses = []string{wire.Pick(r, addrUniverse)}
 	}
 	switch r.Intn(40) {
@@ -353,6 +573,18 @@ func genClaEp(r *wire.Rng) *model.IstioEndpoint {
 	return e
 }
 
+func queryTok(d svcDesc, port int, subset string, unh bool) string {
+	portName := "!"
+	if n, ok := claPorts[port]; ok {
+		portName = wire.Enc(n)
+	}
+	return strings.Join([]string{
+		wire.Enc(svcHost(d.name)), claNs, strconv.Itoa(port), wire.Enc(subset),
+		portName, encLabels(claSubsets[subset]), wire.B(d.clusterLocal), wire.B(d.nodeLocal),
+		wire.B(unh && !d.minHealth), wire.B(d.persistent),
+	}, "|")
+}
+
 func genCla(seed uint64, n int, outp string) {
 	out := wire.Create(outp)
 	defer out.Close()
@@ -360,85 +592,133 @@ func genCla(seed uint64, n int, outp string) {
 	shards := []pair{{"Kubernetes", "c1"}, {"Kubernetes", "c2"}, {"External", "c1"}, {"External", ""}}
 	for c := 0; c < n; c++ {
 		r := root.Fork()
-		out.Line("case", strconv.Itoa(c), "cla")
-		d := wire.Pick(r, append([]svcDesc{claSvcs[0], claSvcs[0], claSvcs[1]}, claSvcs...))
-		k := pair{svcHost(d.name), claNs}
-		last := map[pair][]*model.IstioEndpoint{}
-		nops := 1 + r.Intn(5)
-		for i := 0; i < nops; i++ {
+		world := 0
+		if r.Chance(1, 3) {
+			world = 1
+		}
+		unh := r.Chance(1, 2)
+		out.Line("case", strconv.Itoa(c), "cla", strconv.Itoa(world), wire.B(unh))
+		// two or three services per case, so that a partial push has clusters it must skip
+		svcs := wire.Subset(r, claSvcs, 1, 2)
+		for len(svcs) < 2 {
+			svcs = append(svcs, wire.Pick(r, claSvcs))
+		}
+		if world == 1 {
+			svcs = []svcDesc{claSvcs[0], wire.Pick(r, claSvcs)}
+		}
+		// the clusters every proxy of the case watches
+		var watched []string
+		for _, d := range svcs {
+			watched = append(watched, queryTok(d, 80, "", unh))
+			watched = append(watched, queryTok(d, wire.Pick(r, []int{80, 81, 99}), wire.Pick(r, []string{"v1", "v2", "app", "all", "zz"}), unh))
+		}
+		proxies := wire.Subset(r, claProxies, 1, 2)
+		if len(proxies) == 0 {
+			proxies = claProxies[:1]
+		}
+		pushLine := func(p proxyDesc) {
+			mode := "sotw"
+			if r.Chance(1, 3) {
+				mode = "delta"
+			}
+			toks := []string{"push", p.name, mode, wire.EncList(p.view), wire.Enc(p.cluster), wire.Enc(p.node), wire.Enc(p.network), encGateways(gatewaysOf(world))}
+			out.Line(append(toks, watched...)...)
+		}
+		last := map[[2]pair][]*model.IstioEndpoint{}
+		nops := 2 + r.Intn(6)
+		// an endpoint without any address (no registry produces one) makes the builder panic: the case
+		// ends with the first push after it
+		poisoned, pushedAfterPoison := false, false
+		for i := 0; i < nops && !pushedAfterPoison; i++ {
+			d := wire.Pick(r, svcs)
+			k := pair{svcHost(d.name), claNs}
 			sk := wire.Pick(r, shards)
-			switch x := r.Intn(12); {
-			case x < 9:
+			key := [2]pair{k, sk}
+			switch x := r.Intn(14); {
+			case x < 11:
 				var eps []*model.IstioEndpoint
-				if len(last[sk]) > 0 && r.Chance(1, 2) {
-					eps = mutate(r, last[sk])
+				if len(last[key]) > 0 && r.Chance(2, 3) {
+					eps = mutate(r, last[key])
 					for _, e := range eps {
 						e.Namespace = claNs
+						if len(e.Addresses) == 0 {
+							e.Addresses = []string{wire.Pick(r, addrUniverse)}
+						}
 					}
 				} else {
 					for j, m := 0, 2+r.Intn(5); j < m; j++ {
-						eps = append(eps, genClaEp(r))
+						eps = append(eps, genClaEp(r, world))
 					}
 				}
 				if r.Chance(1, 12) {
 					eps = nil
 				}
-				last[sk] = eps
+				for _, e := range eps {
+					// the registries derive the flag from the service (Service.SupportsUnhealthyEndpoints), i.e. from
+					// the same process-wide default the builder reads: an endpoint whose flag disagrees with it does
+					// not occur (assumption `hc` of member_pushable)
+					e.SendUnhealthyEndpoints = unh
+				}
+				last[key] = eps
+				for _, e := range eps {
+					if len(e.Addresses) == 0 {
+						poisoned = true
+					}
+				}
 				out.Line(opLine(op{kind: "upd", sk: sk, k: k, eps: eps})...)
-			case x < 10:
-				out.Line(opLine(op{kind: "delsvc", sk: sk, k: k, preserve: r.Chance(1, 2)})...)
-				last[sk] = nil
-			case x < 11:
+			case x < 12:
+				out.Line(opLine(op{kind: "delsvc", sk: sk, k: k, preserve: false})...)
+				last[key] = nil
+			case x < 13:
 				out.Line(opLine(op{kind: "delshard", sk: sk})...)
-				last[sk] = nil
+				for kk := range last {
+					if kk[1] == sk {
+						last[kk] = nil
+					}
+				}
 			default:
 				out.Line(opLine(op{kind: "prune", sk: sk, keep: nil})...)
-				last[sk] = nil
+				for kk := range last {
+					if kk[1] == sk {
+						last[kk] = nil
+					}
+				}
 			}
-			if r.Chance(1, 3) || i == nops-1 {
-				for j, m := 0, 1+r.Intn(3); j < m; j++ {
-					out.Line(genQuery(r, d)...)
+			if r.Chance(1, 2) || i == nops-1 || poisoned {
+				for j, p := range proxies {
+					if poisoned && j > 0 {
+						break
+					}
+					if r.Chance(3, 4) || i == nops-1 || poisoned {
+						pushLine(p)
+						pushedAfterPoison = poisoned
+					}
 				}
 			}
 		}
 	}
 }
 
-func genQuery(r *wire.Rng, d svcDesc) []string {
-	port := wire.Pick(r, []int{80, 80, 80, 80, 80, 80, 81, 99})
-	subset := wire.Pick(r, []string{"", "", "", "v1", "v2", "app", "all", "zz"})
-	p := wire.Pick(r, append([]proxyDesc{claProxies[0], claProxies[0]}, claProxies...))
-	unh := r.Chance(1, 3)
-	portName := "!"
-	if n, ok := claPorts[port]; ok {
-		portName = wire.Enc(n)
-	}
-	return []string{
-		"cla", wire.Enc(svcHost(d.name)), claNs, strconv.Itoa(port), wire.Enc(subset), p.name, wire.B(unh),
-		portName, encLabels(claSubsets[subset]), wire.EncList(p.view), wire.Enc(p.cluster),
-		wire.B(d.clusterLocal), wire.B(d.nodeLocal), wire.Enc(p.node), wire.B(unh), wire.B(d.persistent),
-	}
-}
-
 // ---------------------------------------------------------------- property oracle (cla)
 //
-// States the membership clause of the property directly on the real ClusterLoadAssignment, with an
-// independent filter written from the property statement (not from the builder's code, and with no
-// reference to the Lean model): the CLA contains, each exactly once, the endpoints last reported by
-// every registry for the service that are on the cluster's port, carry the subset's labels, are
-// healthy (or allowed unhealthy), not terminating, draining only for persistent-session services,
-// discoverable from and visible to the proxy, inside the proxy's cluster / node for cluster-local /
-// node-local services, and have a usable address; grouped by locality, group weight = saturating
-// sum of endpoint weights (each >= 1).
-
-type wantEp struct {
-	loc string
-	tok string
-}
+// States the served clause of the property directly on the real code, with no reference to the
+// Lean model.  After every push, for every cluster the proxy watches:
+//   served-is-current   the assignment the proxy holds (merged from the partial pushes the real generator
+//                       produced from the recorded, non-forced requests) equals a fresh
+//                       BuildClusterLoadAssignment from the current index: every cluster whose membership
+//                       changed was regenerated, a NoPush update changed no assignment;
+//   membership-exact    (single-network world) it contains, each exactly once, the endpoints last reported by
+//                       every registry that an independent filter written from the property statement accepts;
+//   grouped-by-locality, weights-consistent;
+//   gateway-weights     (multi-network world) in every locality the directly reachable members are there with
+//                       their scaled weight, every gateway endpoint's weight is the sum of the shares of the
+//                       remote members of THAT locality routed through it, and a locality without such
+//                       members has no gateway endpoint;
+//   never-crashes.
 
 func sameOrEmpty(a, b string) bool { return a == "" || b == "" || a == b }
 
-func oracleMember(q claQuery, d svcDesc, p proxyDesc, sk pair, e *model.IstioEndpoint) bool {
+func oracleMember(q claQuery, unh bool, d svcDesc, p proxyDesc, sk pair, e *model.IstioEndpoint) bool {
 	if e.ServicePortName != claPorts[q.port] {
 		return false
 	}
@@ -449,7 +729,7 @@ func oracleMember(q claQuery, d svcDesc, p proxyDesc, sk pair, e *model.IstioEnd
 	}
 	drainingLabel := e.Labels[features.DrainingLabel] != ""
 	switch {
-	case e.HealthStatus == model.UnHealthy && !q.unh:
+	case e.HealthStatus == model.UnHealthy && (!unh || d.minHealth):
 		return false
 	case e.HealthStatus == model.Terminating:
 		return false
@@ -483,12 +763,121 @@ func oracleMember(q claQuery, d svcDesc, p proxyDesc, sk pair, e *model.IstioEnd
 	return true
 }
 
+func epTok(addr string, port int, h int, w uint64) string {
+	a := wire.Enc(addr) + ":" + strconv.Itoa(port)
+	if port == 0 {
+		a = "pipe:" + wire.Enc(addr)
+	}
+	return fmt.Sprintf("%s/h%d/w%d", a, h, w)
+}
+
+// expected computes, per locality, the multiset of endpoint tokens the property demands.
+func expected(world int, q claQuery, unh bool, d svcDesc, p proxyDesc, want map[pair][]*model.IstioEndpoint) map[string][]string {
+	exp := map[string][]string{}
+	if _, ok := claPorts[q.port]; !ok {
+		return exp
+	}
+	gws := gatewaysOf(world)
+	// gateways usable by a sidecar for (network, cluster): those of the network and cluster, else of the network
+	usable := func(nw, cl string) []model.NetworkGateway {
+		var nc, n []model.NetworkGateway
+		for _, g := range gws {
+			if string(g.Network) == nw {
+				n = append(n, g)
+				if string(g.Cluster) == cl {
+					nc = append(nc, g)
+				}
+			}
+		}
+		if len(nc) == 0 {
+			nc = n
+		}
+		var out []model.NetworkGateway
+		for _, g := range nc {
+			if g.Port != 0 {
+				out = append(out, g)
+			}
+		}
+		return out
+	}
+	scale := uint64(1)
+	if world == 1 {
+		scale = 2 // lcm of the gateway group sizes of claGateways (1, 2, 2, 1 / 2, 2, 1)
+	}
+	type gwKey struct {
+		addr string
+		port uint32
+	}
+	gwW := map[string]map[gwKey]uint64{}
+	for sk, eps := range want {
+		for _, e := range eps {
+			if !oracleMember(q, unh, d, p, sk, e) {
+				continue
+			}
+			w := uint64(e.LbWeight)
+			if w == 0 {
+				w = 1
+			}
+			h := int(e.HealthStatus)
+			if e.Labels[features.DrainingLabel] != "" {
+				h = int(model.Draining)
+			}
+			loc := e.Locality.Label
+			if world == 0 {
+				exp[loc] = append(exp[loc], epTok(e.Addresses[0], int(e.EndpointPort), h, w))
+				continue
+			}
+			// multi-network
+			if _, ok := exp[loc]; !ok {
+				exp[loc] = nil
+			}
+			w *= scale
+			if w > math.MaxUint32 {
+				w = math.MaxUint32
+			}
+			ug := usable(string(e.Network), string(e.Locality.ClusterID))
+			remote := len(ug) > 0 && (p.network == "" && e.Network != "" || !sameOrEmpty(string(e.Network), p.network))
+			if !remote {
+				if e.EndpointPort != 0 && e.Addresses[0] != "" {
+					exp[loc] = append(exp[loc], epTok(e.Addresses[0], int(e.EndpointPort), h, w))
+				}
+				continue
+			}
+			var reach []model.NetworkGateway
+			for _, g := range ug {
+				if !strings.Contains(g.Addr, ":") { // the proxies are IPv4 only
+					reach = append(reach, g)
+				}
+			}
+			if len(reach) == 0 || e.TLSMode != model.IstioMutualTLSModeLabel {
+				continue
+			}
+			if gwW[loc] == nil {
+				gwW[loc] = map[gwKey]uint64{}
+			}
+			for _, g := range reach {
+				gwW[loc][gwKey{g.Addr, g.Port}] = (gwW[loc][gwKey{g.Addr, g.Port}] + w/uint64(len(reach))) % (1 << 32)
+			}
+		}
+	}
+	for loc, m := range gwW {
+		for g, w := range m {
+			if w == 0 {
+				w = 1
+			}
+			exp[loc] = append(exp[loc], epTok(g.addr, int(g.port), 0, w))
+		}
+	}
+	return exp
+}
+
 func oracleCla(in, outp string) {
 	out := wire.Create(outp)
 	defer out.Close()
-	c := &claSUT{w: newClaWorld()}
-	defer c.w.f.done()
+	c := &claSUT{}
+	defer c.done()
 	verdict, open, idx := "", false, 0
+	world, unh := 0, false
 	want := map[pair]map[pair][]*model.IstioEndpoint{}
 	flush := func() {
 		if open {
@@ -507,12 +896,13 @@ func oracleCla(in, outp string) {
 		if f[0] == "case" {
 			flush()
 			c.apply(f)
+			world, unh = c.w.id, len(f) >= 5 && f[4] == "1"
 			want = map[pair]map[pair][]*model.IstioEndpoint{}
 			verdict, open, idx = "", true, 0
 			continue
 		}
 		idx++
-		if f[0] != "cla" {
+		if f[0] != "push" {
 			o, ok := parseOp(f)
 			if !ok {
 				continue
@@ -549,119 +939,110 @@ func oracleCla(in, outp string) {
 			}
 			continue
 		}
-		q, ok := parseQuery(f)
-		if !ok {
+		if len(f) < 9 || c.w == nil || c.w.proxies[f[1]] == nil {
 			continue
 		}
-		var d svcDesc
-		for _, x := range claSvcs {
-			if svcHost(x.name) == q.svc {
-				d = x
+		var qs []claQuery
+		for _, t := range f[8:] {
+			if q, ok := parseQuery(t); ok {
+				qs = append(qs, q)
 			}
 		}
-		var p proxyDesc
-		for _, x := range claProxies {
-			if x.name == q.proxy {
-				p = x
-			}
-		}
+		p := proxyByName(f[1])
+		// an endpoint without any address on a watched port is outside the builder's contract
 		noAddr := false
-		for _, eps := range want[pair{q.svc, q.ns}] {
-			for _, e := range eps {
-				if len(e.Addresses) == 0 && e.ServicePortName == claPorts[q.port] {
-					noAddr = true // an endpoint without any address is outside the builder's contract
+		for _, q := range qs {
+			for _, eps := range want[pair{q.svc, q.ns}] {
+				for _, e := range eps {
+					if len(e.Addresses) == 0 && e.ServicePortName == claPorts[q.port] {
+						noAddr = true
+					}
 				}
 			}
 		}
 		if noAddr {
+			// still push (the connection state must follow), but do not judge
+			func() {
+				defer func() { _ = recover() }()
+				c.w.push(f[1], f[2], qs)
+			}()
+			if cn := c.w.conns[f[1]]; cn != nil {
+				cn.inited = false // it will reconnect
+				cn.served = map[string]*endpoint.ClusterLoadAssignment{}
+			}
 			continue
 		}
-		var cla, direct *endpoint.ClusterLoadAssignment
+		var served []*endpoint.ClusterLoadAssignment
 		func() {
 			defer func() {
 				if r := recover(); r != nil {
-					fail("never-crashes", strings.Join(f[:7], " "))
+					fail("never-crashes", strings.Join(f[:3], " "))
 				}
 			}()
-			cla = c.w.query(q, &direct)
+			served = c.w.push(f[1], f[2], qs)
 		}()
-		if cla == nil {
+		if served == nil {
 			continue
 		}
-		if direct != nil && showCLA(direct) != showCLA(cla) {
-			fail("served-is-current", fmt.Sprintf("%s: generator serves %s, index has %s", strings.Join(f[1:7], " "), showCLA(cla), showCLA(direct)))
-		}
-		// expected members, by locality
-		exp := map[string][]string{}
-		expW := map[string]uint64{}
-		if _, ok := claPorts[q.port]; ok {
-			for sk, eps := range want[pair{q.svc, q.ns}] {
-				for _, e := range eps {
-					if !oracleMember(q, d, p, sk, e) {
-						continue
-					}
-					w := uint64(e.LbWeight)
+		for i, q := range qs {
+			cla := served[i]
+			fresh := c.w.direct(f[1], q)
+			if showCLA(cla) != showCLA(fresh) {
+				fail("served-is-current", fmt.Sprintf("%s %s: proxy holds %s, the index gives %s", f[1], q.cluster(), showCLA(cla), showCLA(fresh)))
+				continue
+			}
+			d := svcByHost(q.svc)
+			exp := expected(world, q, unh, d, p, want[pair{q.svc, q.ns}])
+			got := map[string][]string{}
+			seenLoc := map[string]bool{}
+			for _, g := range cla.GetEndpoints() {
+				loc := util.LocalityToString(g.Locality)
+				if seenLoc[loc] {
+					fail("grouped-by-locality", "locality "+loc+" appears twice")
+				}
+				seenLoc[loc] = true
+				var sum uint64
+				got[loc] = nil
+				for _, le := range g.LbEndpoints {
+					w := le.GetLoadBalancingWeight().GetValue()
 					if w == 0 {
-						w = 1
+						fail("weights-consistent", "endpoint weight 0")
 					}
-					h := int(e.HealthStatus)
-					if e.Labels[features.DrainingLabel] != "" {
-						h = int(model.Draining)
+					sum += uint64(w)
+					got[loc] = append(got[loc], showLbEp(le))
+				}
+				if world == 0 {
+					if sum > math.MaxUint32 {
+						sum = math.MaxUint32
 					}
-					addr := wire.Enc(e.Addresses[0]) + ":" + strconv.Itoa(int(e.EndpointPort))
-					if e.EndpointPort == 0 {
-						addr = "pipe:" + wire.Enc(e.Addresses[0])
+					if len(g.LbEndpoints) == 0 {
+						fail("grouped-by-locality", "empty locality group "+loc)
 					}
-					exp[e.Locality.Label] = append(exp[e.Locality.Label], fmt.Sprintf("%s/h%d/w%d", addr, h, w))
-					expW[e.Locality.Label] += w
+				} else {
+					sum %= 1 << 32
+				}
+				if uint64(g.GetLoadBalancingWeight().GetValue()) != sum {
+					fail("weights-consistent", fmt.Sprintf("locality %s weight %d, endpoints sum to %d", loc, g.GetLoadBalancingWeight().GetValue(), sum))
 				}
 			}
-		}
-		got := map[string][]string{}
-		seenLoc := map[string]bool{}
-		for _, g := range cla.GetEndpoints() {
-			loc := util.LocalityToString(g.Locality)
-			if seenLoc[loc] {
-				fail("grouped-by-locality", "locality "+loc+" appears twice")
+			locs := map[string]bool{}
+			for l := range exp {
+				locs[l] = true
 			}
-			seenLoc[loc] = true
-			var sum uint64
-			for _, le := range g.LbEndpoints {
-				a := le.GetEndpoint().GetAddress()
-				addr := "pipe:" + wire.Enc(a.GetPipe().GetPath())
-				if sa := a.GetSocketAddress(); sa != nil {
-					addr = wire.Enc(sa.GetAddress()) + ":" + strconv.Itoa(int(sa.GetPortValue()))
+			for l := range got {
+				locs[l] = true
+			}
+			for l := range locs {
+				a, b := append([]string{}, exp[l]...), append([]string{}, got[l]...)
+				sort.Strings(a)
+				sort.Strings(b)
+				if strings.Join(a, ",") != strings.Join(b, ",") {
+					clause := "membership-exact"
+					if world == 1 {
+						clause = "gateway-weights"
+					}
+					fail(clause, fmt.Sprintf("%s %s locality %q: want %v got %v", f[1], q.cluster(), l, a, b))
 				}
-				w := le.GetLoadBalancingWeight().GetValue()
-				if w == 0 {
-					fail("weights-consistent", "endpoint weight 0")
-				}
-				sum += uint64(w)
-				got[loc] = append(got[loc], fmt.Sprintf("%s/h%d/w%d", addr, int(le.HealthStatus), w))
-			}
-			if sum > math.MaxUint32 {
-				sum = math.MaxUint32
-			}
-			if uint64(g.GetLoadBalancingWeight().GetValue()) != sum {
-				fail("weights-consistent", fmt.Sprintf("locality %s weight %d, endpoints sum to %d", loc, g.GetLoadBalancingWeight().GetValue(), sum))
-			}
-			if len(g.LbEndpoints) == 0 {
-				fail("grouped-by-locality", "empty locality group "+loc)
-			}
-		}
-		locs := map[string]bool{}
-		for l := range exp {
-			locs[l] = true
-		}
-		for l := range got {
-			locs[l] = true
-		}
-		for l := range locs {
-			a, b := append([]string{}, exp[l]...), append([]string{}, got[l]...)
-			sort.Strings(a)
-			sort.Strings(b)
-			if strings.Join(a, ",") != strings.Join(b, ",") {
-				fail("membership-exact", fmt.Sprintf("%s locality %q: want %v got %v", strings.Join(f[1:7], " "), l, a, b))
 			}
 		}
 	}
